@@ -1,3 +1,4 @@
+#define HV_EIGEN_ASSERT_THROWS
 // C02 numeric harness: exp against an independent matrix exponential of the documented hat matrix
 // (scaling-and-squaring Taylor in long double), log range and both round trips.  Accuracy clause of C02
 // and failing-input search.  Failure records carry the rotation norm so that known findings can be
@@ -82,7 +83,9 @@ void run(Report & rep, Rng & rng, int n, double tol, double tol_pi, double pi_ba
   }
 }
 
-int main()
+static int hv_main();
+int main() { return hv::guard(hv_main); }
+static int hv_main()
 {
   Report rep;
   rep.property = "C02";
